@@ -322,3 +322,61 @@ Proof.
   destruct (afreq_f1_boundary (cnt j next) (2 * Z.of_nat n') B' ltac:(lia)) as (E1' & E0' & _).
   split; intros E; [apply E0', C3, E0, E | apply E1', C2, E1, E].
 Qed.
+
+(** * 7. the three routes to the limits agree (phased object, unphased object / raw dosage array with ploidy 2) *)
+Lemma freq_routes n p geno : wf n p geno -> freq_dosage 2 n p geno = freq_phased n p geno.
+Proof.
+  intros H. pose proof (dosage_shape n p geno H) as [Ld _]. destruct H as (L & Hp & _).
+  unfold freq_dosage, freq_phased, afreq_f, afreq_ph_f, dosage in *. rewrite <- (acount_phased_eq_projection n p geno Hp).
+  unfold ntaxa, nphase. now rewrite Ld, L.
+Qed.
+Lemma usl_routes t n p u geno : wf n p geno -> usl_dosage t n p 2 u geno = usl t n p u geno /\ lsl_dosage t n p 2 u geno = lsl t n p u geno.
+Proof.
+  intros H. unfold usl_dosage, lsl_dosage, usl, lsl. rewrite (freq_routes n p geno H). destruct H as (L & _). unfold nphase. rewrite L. split; reflexivity.
+Qed.
+
+(** * 8. unscale = True: the same intercept is added to the limits and to the breeding values *)
+Lemma limit_rows_ok ind ploidy t p u freq : model_ok p t u -> length freq = p -> Forall (fun r => length r = t) (limit_rows ind ploidy u freq).
+Proof.
+  intros [Lu Hu] Lf. unfold limit_rows. rewrite (map2_seq _ [] 0%float u freq p Lu Lf).
+  apply Forall_forall. intros r Hr. apply in_map_iff in Hr as (j & <- & Hj). apply in_seq in Hj. rewrite map_length.
+  rewrite Forall_forall in Hu. apply Hu, nth_In. lia.
+Qed.
+Lemma usl_length t n p u geno : wf n p geno -> model_ok p t u -> length (usl t n p u geno) = t /\ length (lsl t n p u geno) = t.
+Proof.
+  intros H Hu. unfold usl, lsl, usl_numpy, lsl_numpy, limit_numpy. split; apply colsumsQ_length; apply (limit_rows_ok _ _ t p); auto using freq_len.
+Qed.
+Lemma gebv_row_length t p u z : model_ok p t u -> length z = p -> length (gebv_row t u z) = t.
+Proof.
+  intros [Lu Hu] Lz. unfold gebv_row. apply colsumsQ_length. rewrite (map2_seq _ 0 [] z u p Lz Lu).
+  apply Forall_forall. intros r Hr. apply in_map_iff in Hr as (j & <- & Hj). apply in_seq in Hj. rewrite map_length.
+  rewrite Forall_forall in Hu. apply Hu, nth_In. lia.
+Qed.
+Lemma location_length t beta : Forall (fun r => length r = t) beta -> length (location t beta) = t.
+Proof.
+  intros Hb. unfold location. apply colsumsQ_length. remember (xstar (length beta)) as w. clear Heqw. revert w.
+  induction Hb as [|r beta Hr _ IH]; intros [|x w]; cbn [map2]; constructor; [now rewrite map_length | apply IH].
+Qed.
+Lemma qadd_nth a b k : (k < length a)%nat -> (k < length b)%nat -> nth k (qadd_l a b) 0%Q = (nth k a 0 + nth k b 0)%Q.
+Proof. intros. unfold qadd_l. now apply nth_map2. Qed.
+
+Lemma pop_brackets_unscaled t n p u beta geno s k : wf n p geno -> model_ok p t u -> Forall (fun r => length r = t) beta ->
+  (s < n)%nat -> (k < t)%nat ->
+  (nth k (lsl_unscaled t n p u beta geno) 0 <= nth k (nth s (gebv_unscaled t u beta (dosage n p geno)) []) 0)%Q /\
+  (nth k (nth s (gebv_unscaled t u beta (dosage n p geno)) []) 0 <= nth k (usl_unscaled t n p u beta geno) 0)%Q.
+Proof.
+  intros H Hu Hb Hs Hk. destruct (pop_brackets t n p u geno s k H Hu Hs Hk) as [B1 B2].
+  destruct (usl_length t n p u geno H Hu) as [LU LL]. pose proof (location_length t beta Hb) as Lloc.
+  destruct (dosage_shape n p geno H) as [Ld Rd]. rewrite Forall_forall in Rd.
+  unfold lsl_unscaled, usl_unscaled, gebv_unscaled. rewrite !qadd_nth by lia.
+  unfold gebv_numpy in *. rewrite map_map. rewrite (nth_map' _ []) by lia. rewrite (nth_map' _ []) in B1, B2 by lia.
+  rewrite qadd_nth; [| rewrite (gebv_row_length t p) by (auto; apply Rd, nth_In; lia); lia | lia].
+  split; apply Qplus_le_compat; try assumption; apply Qle_refl.
+Qed.
+
+(** * 9. the frequency formula used before the fix breaks tightness: 49 diploids fixed for an unfavourable allele *)
+Lemma reciprocal_refuted :
+  let f := afreq_recip_f1 98 98 in
+  usl_numpy 1 2 [[(-1)%Q]] [f] = [0%Q] /\ lsl_numpy 1 2 [[1%Q]] [f] = [0%Q] /\
+  usl_numpy 1 2 [[(-1)%Q]] [afreq_f1 98 98] = [(2 * -1 * 1 + 0)%Q].
+Proof. vm_compute. repeat split. Qed.
